@@ -271,29 +271,36 @@ EmitDone == Done => PrintT(ToJson([pid |-> pid, sched |-> sched, phase |-> phase
                                    mstate |-> mstate]))
 
 \* ------------------------------------------------------------------ C04 : names resolve to what Python binds, or not at all
-PB == PyBindAll(Prj)
+\* entry orders: how the project is imported.  Acyclic projects: any order binds the same (one order is evaluated); projects
+\* with import cycles: the harness lists the orders to consider (Prj.entries), those in which the interpreter raises are not
+\* ways to import the project (PBs[e].err)
+EntryOrders == IF "entries" \in DOMAIN Prj THEN Prj.entries ELSE <<[i \in 1..NMods |-> i]>>
+PBs == [e \in 1..Len(EntryOrders) |-> PyBindOrder(Prj, EntryOrders[e])]
+\* (a single order, i.e. an acyclic project, is always kept: the generated acyclic projects are importable)
+ValidEntries == IF Len(EntryOrders) = 1 THEN {1} ELSE {e \in 1..Len(EntryOrders) : ~PBs[e].err}
 SiteObjs(i, pc) == {o \in 1..Len(st.objs) : st.objs[o].site = [m |-> i, pc |-> pc] /\ Registered(st, o)}
 ObjAt(i, pc) == LET c == SiteObjs(i, pc) IN IF c = {} THEN NoObj ELSE CHOOSE o \in c : \A o2 \in c : st.objs[o].name.d <= st.objs[o2].name.d
 SiteOfObj(o) == IF o = NoObj THEN <<>> ELSE <<st.objs[o].site.m, st.objs[o].site.pc>>
-Row(key, parts, v) == [scope |-> key, name |-> parts, py |-> <<v.i, v.pc>>,
-                       res |-> IF ObjAt(key[1], key[2]) = NoObj THEN <<>>
-                               ELSE SiteOfObj(ResolveName(st, ObjAt(key[1], key[2]), parts, MO))]
-NameRows == UNION {
-   {Row(key, <<n>>, PB.ns[key][n]) : n \in DOMAIN PB.ns[key]}
-   \cup UNION {{Row(key, <<n, a>>, PB.ns[ModKey(PB.ns[key][n].i)][a]) : a \in DOMAIN NsOf(PB, ModKey(PB.ns[key][n].i))}
+Row(e, key, parts, v) == [e |-> e, scope |-> key, name |-> parts, py |-> <<v.i, v.pc>>,
+                          res |-> IF ObjAt(key[1], key[2]) = NoObj THEN <<>>
+                                  ELSE SiteOfObj(ResolveName(st, ObjAt(key[1], key[2]), parts, MO))]
+RowsOf(e, PB) == UNION {
+   {Row(e, key, <<n>>, PB.ns[key][n]) : n \in DOMAIN PB.ns[key]}
+   \cup UNION {{Row(e, key, <<n, a>>, PB.ns[ModKey(PB.ns[key][n].i)][a]) : a \in DOMAIN NsOf(PB, ModKey(PB.ns[key][n].i))}
                : n \in {x \in DOMAIN PB.ns[key] : PB.ns[key][x].t = "mod"}}
-   \cup UNION {UNION {{Row(key, <<n, a, b>>, PB.ns[ModKey(PB.ns[ModKey(PB.ns[key][n].i)][a].i)][b])
+   \cup UNION {UNION {{Row(e, key, <<n, a, b>>, PB.ns[ModKey(PB.ns[ModKey(PB.ns[key][n].i)][a].i)][b])
                          : b \in DOMAIN NsOf(PB, ModKey(PB.ns[ModKey(PB.ns[key][n].i)][a].i))}
                       : a \in {y \in DOMAIN NsOf(PB, ModKey(PB.ns[key][n].i)) : PB.ns[ModKey(PB.ns[key][n].i)][y].t = "mod"}}
                : n \in {x \in DOMAIN PB.ns[key] : PB.ns[key][x].t = "mod"}}
    \* names reached through a class value: C.member for every member bound in C or inherited along Python's MRO
-   \cup UNION {UNION {{Row(key, <<n, a>>, Attr(PB, PB.ns[key][n], a, 8))
+   \cup UNION {UNION {{Row(e, key, <<n, a>>, Attr(PB, PB.ns[key][n], a, 8))
                          : a \in DOMAIN NsOf(PB, <<PyMro(PB, PB.ns[key][n], 8)[k].i, PyMro(PB, PB.ns[key][n], 8)[k].pc>>)}
                       : k \in {j \in 1..Len(PyMro(PB, PB.ns[key][n], 8)) : PyMro(PB, PB.ns[key][n], 8)[j].t = "obj"}}
                : n \in {x \in DOMAIN PB.ns[key] : IsClassVal(PB, PB.ns[key][x])}}
    : key \in DOMAIN PB.ns}
-\* never a different object
-ResolvesRightOrNot == phase = "done" => \A r \in NameRows : r.res = <<>> \/ r.res = r.py
+NameRows == UNION {RowsOf(e, PBs[e]) : e \in ValidEntries}
+\* a name resolves to what it denotes under SOME way of importing the project, or not at all
+ResolvesRightOrNot == phase = "done" => \A r \in NameRows : r.res = <<>> \/ \E r2 \in NameRows : r2.scope = r.scope /\ r2.name = r.name /\ r2.py = r.res
 EmitNames == phase = "done" => PrintT(ToJson([pid |-> pid, sched |-> sched, rows |-> SetToSeq(NameRows)]))
 
 \* ------------------------------------------------------------------ cross-references in docstrings (Linker.tla)
@@ -311,5 +318,6 @@ XRow(o, parts) == LET x == XRef(st, o, parts, MO)
 XRefRows == {XRow(o, parts) : o \in XCtx, parts \in XNames}
 XRefDesign == phase = "done" => \A o \in XCtx, parts \in XNames :
                  FullNameWins(st, o, parts, MO) /\ LocalFirst(st, o, parts, MO) /\ AnswerRegistered(st, o, parts, MO)
-EmitNamesX == phase = "done" => PrintT(ToJson([pid |-> pid, sched |-> sched, rows |-> SetToSeq(NameRows), xrefs |-> SetToSeq(XRefRows)]))
+EmitNamesX == phase = "done" => PrintT(ToJson([pid |-> pid, sched |-> sched, rows |-> SetToSeq(NameRows), xrefs |-> SetToSeq(XRefRows),
+                                                invalid |-> SetToSeq({e \in 1..Len(EntryOrders) : PBs[e].err})]))
 =============================================================================
